@@ -40,42 +40,56 @@ func (d *detRand) Read(p []byte) (int, error) {
 }
 
 var (
-	certOnce sync.Once
-	certVal  tls.Certificate
-	certErr  error
+	certMu   sync.Mutex
+	certVals = map[string]tls.Certificate{}
 )
 
 var tlsFixedTime = time.Date(2020, 6, 1, 0, 0, 0, 0, time.UTC)
 
-func testCertificate() (tls.Certificate, error) {
-	certOnce.Do(func() {
-		seed := bytes.Repeat([]byte{0x42}, ed25519.SeedSize)
-		priv := ed25519.NewKeyFromSeed(seed)
-		tmpl := &x509.Certificate{
-			SerialNumber: big.NewInt(1),
-			Subject:      pkix.Name{CommonName: "psql-wire.sim"},
-			NotBefore:    time.Date(1999, 1, 1, 0, 0, 0, 0, time.UTC),
-			NotAfter:     time.Date(2099, 1, 1, 0, 0, 0, 0, time.UTC),
-			KeyUsage:     x509.KeyUsageDigitalSignature,
-			ExtKeyUsage:  []x509.ExtKeyUsage{x509.ExtKeyUsageServerAuth},
-			DNSNames:     []string{"psql-wire.sim"},
-		}
-		der, err := x509.CreateCertificate(&detRand{NewRand(7)}, tmpl, tmpl, priv.Public(), priv)
-		if err != nil {
-			certErr = err
-			return
-		}
-		certVal = tls.Certificate{Certificate: [][]byte{der}, PrivateKey: priv}
-	})
-	return certVal, certErr
+func testCertificate() (tls.Certificate, error) { return testCertificateValid("") }
+
+// testCertificateValid: validity "" = 1999-2099 (valid at the fixed TLS time),
+// "expired" = 1999-2010, "future" = 2050-2099. Nobody verifies the certificate
+// (clients connect with verification off, as libpq's sslmode=require does).
+func testCertificateValid(validity string) (tls.Certificate, error) {
+	certMu.Lock()
+	defer certMu.Unlock()
+	if c, ok := certVals[validity]; ok {
+		return c, nil
+	}
+	nb, na := time.Date(1999, 1, 1, 0, 0, 0, 0, time.UTC), time.Date(2099, 1, 1, 0, 0, 0, 0, time.UTC)
+	switch validity {
+	case "expired":
+		na = time.Date(2010, 1, 1, 0, 0, 0, 0, time.UTC)
+	case "future":
+		nb = time.Date(2050, 1, 1, 0, 0, 0, 0, time.UTC)
+	}
+	seed := bytes.Repeat([]byte{0x42}, ed25519.SeedSize)
+	priv := ed25519.NewKeyFromSeed(seed)
+	tmpl := &x509.Certificate{
+		SerialNumber: big.NewInt(1),
+		Subject:      pkix.Name{CommonName: "psql-wire.sim"},
+		NotBefore:    nb,
+		NotAfter:     na,
+		KeyUsage:     x509.KeyUsageDigitalSignature,
+		ExtKeyUsage:  []x509.ExtKeyUsage{x509.ExtKeyUsageServerAuth},
+		DNSNames:     []string{"psql-wire.sim"},
+	}
+	der, err := x509.CreateCertificate(&detRand{NewRand(7)}, tmpl, tmpl, priv.Public(), priv)
+	if err != nil {
+		return tls.Certificate{}, err
+	}
+	c := tls.Certificate{Certificate: [][]byte{der}, PrivateKey: priv}
+	certVals[validity] = c
+	return c, nil
 }
 
-func serverTLSConfig(kind string) (*tls.Config, error) {
+func serverTLSConfig(kind, validity string) (*tls.Config, error) {
 	switch kind {
 	case "empty":
 		return &tls.Config{}, nil
 	case "certs":
-		cert, err := testCertificate()
+		cert, err := testCertificateValid(validity)
 		if err != nil {
 			return nil, err
 		}
